@@ -138,8 +138,12 @@ impl<T: Read + Seek> ClassRead for T {
         Ok(buf)
     }
     fn read_u8_vec(&mut self, size: usize) -> Result<Vec<u8>> {
-        let mut vec = std::vec::from_elem(0, size);
-        self.read_exact(&mut vec)?;
+        // don't allocate `size` bytes before knowing that the input has that many
+        let mut vec = Vec::new();
+        let read = Read::by_ref(self).take(size as u64).read_to_end(&mut vec)?;
+        if read != size {
+            bail!("couldn't read {size} bytes, the data ended after {read}");
+        }
         Ok(vec)
     }
 }
